@@ -7,14 +7,14 @@ from core import Case
 from pyerr import exc_code
 
 PROP = 'C19'
-COQ_TARGETS = ['theories/RouterCacheFacts.vo', 'theories/RouterCacheSweep.vo']
+COQ_TARGETS = ['theories/RouterCacheFacts.vo', 'theories/RouterCacheRenum.vo', 'theories/RouterCacheSweep.vo']
 COQ_IMPORTS = 'From Bac Require Import Base RouterCache.'
 RULE = ('cases: histories over {learn(snet, router, dnets, status), status(snet, router), forget router, forget dnets, '
         'forget dnets of a router, forget with neither (refused), renumber(old, new)} on source nets {None,1,2,3} x routers '
         '{1,2,3} x dnets {10,11,12,13}: every history of length 1 over the 105-op alphabet, of length 2 over its 38-op core (all 105^2 in the thorough tier) plus 3000 seeded pairs, seeded random ones of length '
-        '3..6, random ones of length 300 (also over a wider domain 5 x 5 x 8), the repaired-defect witnesses; the cache is '
+        '3..6, random ones of length 300 (also over a wider domain 5 x 5 x 8), the repaired-defect witnesses, two systematic families (the same MAC on two source networks followed by forget / renumber / announce on one of them; a router announcing dnets held by two different routers of the same source network); the cache is '
         'dumped after EVERY operation (key sets, every router record, every lookup, identity of the record a path leads to). '
-        'nsap cases: the same kind of history sent as real IAmRouterToNetwork / NetworkNumberIs / routed NPDUs over two '
+        'nsap cases: the same kind of history sent as real IAmRouterToNetwork / NetworkNumberIs / routed NPDUs (same MACs 1..3 on both LANs) plus delete_router_references calls over two '
         'vlan.Networks into a two-adapter NetworkServiceAccessPoint, cache dumped after each frame, compared with the model '
         'run on the operations the frames stand for.  direct: breadth-first over all DISTINCT reachable cache states to depth '
         '2 (quick) / 4 (thorough) with every op of the alphabet applied to each (= all histories of length <= 3 / 5, since the '
@@ -257,7 +257,45 @@ WITNESSES = [
     [('L', NONE, 1, (10,), 0), ('R', NONE, 2), ('L', 2, 2, (10,), 0)],
     [('L', 1, 1, (10, 10), 2), ('F', 1, 1, (10, 10))],
     [('L', 1, 1, (10,), 0), ('F', 1, None, None)],
+    # the same MAC on two attached networks (MACs are unique per network only): forgetting on one
+    # network must leave the other network's paths and record alone
+    [('L', 1, 1, (10, 11), 0), ('L', 2, 1, (10, 12), 0), ('F', 1, 1, None)],
+    [('L', 1, 2, (10,), 0), ('L', 2, 2, (10,), 0), ('F', 2, 2, (10,))],
+    [('L', 1, 1, (10,), 0), ('L', 2, 1, (10,), 0), ('F', 1, None, (10,))],
+    [('L', 1, 1, (10,), 0), ('L', 2, 1, (11,), 0), ('R', 1, 3), ('F', 3, 1, None)],
+    [('L', 1, 1, (10,), 0), ('L', 2, 1, (10,), 0), ('L', 1, 1, (11,), 0), ('S', 2, 1, 2)],
+    # a third router announces dnets held by two DIFFERENT routers of the same source network:
+    # every displaced owner loses its dnet (and its record when nothing is left)
+    [('L', 1, 1, (10,), 0), ('L', 1, 2, (11,), 0), ('L', 1, 3, (10, 11), 0)],
+    [('L', 1, 1, (10, 12), 0), ('L', 1, 2, (11, 13), 0), ('L', 1, 3, (10, 11, 12), 0)],
+    [('L', 1, 1, (10,), 0), ('L', 1, 2, (11,), 0), ('L', 1, 3, (12,), 0), ('L', 1, 1, (11, 12), 0)],
+    [('L', 1, 1, (10,), 0), ('L', 1, 2, (11,), 0), ('F', 1, None, (10, 11))],
 ]
+
+
+def families():
+    """systematic small families around the two situations above"""
+    out = []
+    # multi-owner displacement: owners a1 != a2 of D1, D2; announcer a3 (a third router or one of the owners)
+    for a1 in AD:
+        for a2 in AD:
+            if a1 == a2:
+                continue
+            for a3 in AD:
+                for d1 in ((10,), (10, 12)):
+                    for d2 in ((11,), (11, 13)):
+                        for d3 in ((10, 11), (11, 10), (10, 11, 12), (10, 11, 12, 13)):
+                            out.append(('multi-owner', [('L', 1, a1, d1, 0), ('L', 1, a2, d2, 0), ('L', 2, a1, (10, 11), 0),
+                                                        ('L', 1, a3, d3, 1)]))
+    # same MAC on both networks, then one more operation on network 1 (or a renumbering)
+    for a in AD:
+        for d1 in ((10,), (10, 11)):
+            for d2 in ((10,), (11, 12)):
+                for last in (('F', 1, a, None), ('F', 2, a, None), ('F', 1, a, (10,)), ('F', 1, a, ()), ('F', 1, None, (10,)),
+                             ('R', 1, 3), ('R', 1, 2), ('R', 2, 1), ('L', 1, a, (12,), 0), ('S', 1, a, 2),
+                             ('L', 1, (a % 3) + 1, (10, 11, 12), 0)):
+                    out.append(('same-mac', [('L', 1, a, d1, 0), ('L', 2, a, d2, 0), last]))
+    return out
 
 
 # =====================================================================================
@@ -377,6 +415,12 @@ class Rig:
         self.nodes[(lan, mac)].indication(pdu)
         self.drain()
 
+    def delete(self, net, mac, dnets):
+        from bacpypes.pdu import Address
+        self.nsap.delete_router_references(net, None if mac is None else Address(mac),
+                                           None if dnets is None else list(dnets))
+        self.drain()
+
     def next_hop(self, dnet):
         """ask the NSAP to send application data to (dnet, 5): which LAN, which MAC?  None = no
         unicast frame with that DNET left the node (it asks Who-Is-Router instead)"""
@@ -416,8 +460,15 @@ def random_msg(rng):
     if r < 0.6:
         n = rng.choice([0, 1, 1, 2, 2, 3])
         return ('iam', lan, mac, tuple(rng.choice(DN) for _ in range(n)))
-    if r < 0.8:
+    if r < 0.72:
         return ('routed', lan, mac, rng.choice(DN + [1, 2, 3]))
+    if r < 0.84:
+        # NetworkServiceAccessPoint.delete_router_references (the API applications use to withdraw knowledge)
+        k = rng.random()
+        if k < 0.4:
+            return ('del', lan, mac, None)
+        n = rng.choice([1, 1, 2])
+        return ('del', lan, mac if k < 0.7 else None, tuple(rng.choice(DN) for _ in range(n)))
     # never B's own number 2: that clash replaces adapter B in NetworkServiceAccessPoint.adapters (not cache behaviour)
     return ('nni', 'A', mac, rng.choice([1, 3, 3]))
 
@@ -440,6 +491,10 @@ def run_msgs(msgs, learned_a, start_a=1):
             if m[3] not in attached:
                 hist.append(('L', NONE if net is None else net, m[2], (m[3],), 0))
             rig.send_routed(m[1], m[2], m[3])
+        elif m[0] == 'del':
+            net = netA if m[1] == 'A' else 2
+            hist.append(('F', NONE if net is None else net, m[2], m[3]))
+            rig.delete(net, m[2], m[3])
         else:
             new = m[3]
             # NetworkNumberIs on A (netservice.py NetworkNumberIs): only a learned number follows
@@ -479,6 +534,8 @@ def cases(rng, tier):
     out = []
     for h in WITNESSES:
         out.append(case_hist(h, 'witness'))
+    for kind, h in families():
+        out.append(case_hist(h, kind))
     alpha = alphabet(2)
     for o in alpha:
         out.append(case_hist([o], 'exh-len1'))
@@ -498,7 +555,7 @@ def cases(rng, tier):
     if big:
         for h in itertools.product(mid, repeat=3):
             out.append(case_hist(list(h), 'exh-len3-mid'))
-    for _ in range(10000 if big else 1500):
+    for _ in range(6000 if big else 1500):
         n = rng.choice([3, 3, 4, 4, 5, 6])
         pool = alpha if rng.random() < 0.7 else mid
         out.append(case_hist([rng.choice(pool) for _ in range(n)], 'rand-short'))
@@ -717,7 +774,7 @@ def direct(rng, tier, focus=()):
     big = tier == 'thorough'
     n = 0
     # 1. witnesses of the repaired defects
-    for h in WITNESSES:
+    for h in WITNESSES + [h for _, h in families()]:
         c = new_cache()
         for i, op in enumerate(h):
             f = check_step(c, op, SN, DN)
